@@ -1180,11 +1180,17 @@ impl Exec {
             }
             "compact" => {
                 assert!(self.wtx.is_none(), "HARNESS: script error: compact with a live write transaction");
+                let (len0, syncs0) = (self.store.len(), self.store.syncs());
                 let r = match self.db.as_mut().unwrap().compact() {
                     Ok(b) => ok(json!(b)),
                     Err(e) => er(e),
                 };
-                Self::with_r(op, r)
+                let mut evs = Self::with_r(op, r);
+                evs[0]["len0"] = json!(len0);
+                evs[0]["len1"] = json!(self.store.len());
+                evs[0]["syncs"] = json!(self.store.syncs() - syncs0);
+                evs[0]["pages0"] = json!(len0 / self.cfg.page_size);
+                evs
             }
             "integrity" => {
                 // is the layout in memory ahead of the one in the on-disk header?
@@ -1256,58 +1262,85 @@ fn expand_map(m: &[(u64, Vec<redb::verif::Page>)]) -> Vec<J> {
     m.iter().map(|(t, p)| json!([t, expand(p)])).collect()
 }
 
-impl Exec {
-    /// Page accounting at a transaction boundary (no write transaction live): what the allocator
-    /// holds, who owns it, what is pinned by whom.  Uses a probe write transaction that is aborted.
-    fn acct(&mut self, op: &J) -> J {
-        assert!(self.wtx.is_none(), "acct needs a transaction boundary");
-        let db = self.db.as_ref().unwrap();
-        let mut ev = json!({"e": "acct", "settled": op.get("settled").and_then(|b| b.as_bool()).unwrap_or(false)});
-        let tracker = db.verif_tracker();
-        let hdr = db.verif_header();
-        let wt = match db.begin_write() {
-            Ok(wt) => wt,
-            Err(e) => {
-                ev["unavailable"] = er(e);
-                return ev;
-            }
-        };
-        let probe_id = wt.verif_id();
-        let acc = wt.verif_accounting();
-        let _ = wt.abort();
-        let acc = match acc {
-            Ok(a) => a,
-            Err(e) => {
-                ev["unavailable"] = er(e);
-                return ev;
-            }
-        };
-        let Some(allocated) = acc.allocated.as_ref() else {
-            ev["unavailable"] = json!({"err": "NoAllocatorState"});
+/// Page accounting of a database at a transaction boundary (no write transaction live): what the
+/// allocator holds, who owns it, tracker and header.  Uses a probe write transaction that is aborted.
+pub fn account(db: &Database, backend_len: usize) -> J {
+    let mut ev = json!({"e": "acct"});
+    let tracker = db.verif_tracker();
+    let hdr = db.verif_header();
+    let wt = match db.begin_write() {
+        Ok(wt) => wt,
+        Err(e) => {
+            ev["unavailable"] = er(e);
             return ev;
-        };
-        ev["alloc"] = json!(allocated.iter().map(|(r, i)| pid(*r, *i)).collect::<Vec<u64>>());
-        ev["region_lens"] = json!(acc.region_lens);
-        // per region: [highest free order of the allocator or -1, orders the region tracker marks full]
-        ev["regions"] = json!(acc
-            .region_tracker
-            .iter()
-            .map(|(hfo, full)| json!([hfo.map_or(-1, i64::from), full.iter().enumerate().filter(|(_, b)| **b).map(|(o, _)| o).collect::<Vec<usize>>()]))
-            .collect::<Vec<J>>());
-        ev["data"] = json!(expand(&acc.data_tree));
-        ev["sys"] = json!(expand(&acc.system_tree));
-        ev["dfreed"] = json!(expand_map(&acc.data_freed));
-        ev["sfreed"] = json!(expand_map(&acc.system_freed));
-        ev["atbl"] = json!(expand_map(&acc.data_allocated));
-        ev["unp_pages"] = json!(expand(&acc.unpersisted_pages));
-        ev["unp_allocs"] = json!(expand_map(&acc.unpersisted_allocations));
-        ev["unp_freed"] = json!(expand_map(&acc.unpersisted_data_freed));
-        ev["post"] = json!(expand(&acc.post_commit_allocations));
-        ev["needs_repair"] = json!(acc.needs_repair);
-        ev["probe_id"] = json!(probe_id);
-        let (dd, ds) = db.verif_durable_pages().unwrap_or_default();
-        ev["durable_data"] = json!(expand(&dd));
-        ev["durable_sys"] = json!(expand(&ds));
+        }
+    };
+    let probe_id = wt.verif_id();
+    let acc = wt.verif_accounting();
+    let _ = wt.abort();
+    let acc = match acc {
+        Ok(a) => a,
+        Err(e) => {
+            ev["unavailable"] = er(e);
+            return ev;
+        }
+    };
+    let Some(allocated) = acc.allocated.as_ref() else {
+        ev["unavailable"] = json!({"err": "NoAllocatorState"});
+        return ev;
+    };
+    ev["alloc"] = json!(allocated.iter().map(|(r, i)| pid(*r, *i)).collect::<Vec<u64>>());
+    ev["region_lens"] = json!(acc.region_lens);
+    // per region: [highest free order of the allocator or -1, orders the region tracker marks full]
+    ev["regions"] = json!(acc
+        .region_tracker
+        .iter()
+        .map(|(hfo, full)| json!([hfo.map_or(-1, i64::from), full.iter().enumerate().filter(|(_, b)| **b).map(|(o, _)| o).collect::<Vec<usize>>()]))
+        .collect::<Vec<J>>());
+    ev["data"] = json!(expand(&acc.data_tree));
+    ev["sys"] = json!(expand(&acc.system_tree));
+    ev["dfreed"] = json!(expand_map(&acc.data_freed));
+    ev["sfreed"] = json!(expand_map(&acc.system_freed));
+    ev["atbl"] = json!(expand_map(&acc.data_allocated));
+    ev["unp_pages"] = json!(expand(&acc.unpersisted_pages));
+    ev["unp_allocs"] = json!(expand_map(&acc.unpersisted_allocations));
+    ev["unp_freed"] = json!(expand_map(&acc.unpersisted_data_freed));
+    ev["post"] = json!(expand(&acc.post_commit_allocations));
+    ev["needs_repair"] = json!(acc.needs_repair);
+    ev["probe_id"] = json!(probe_id);
+    let (dd, ds) = db.verif_durable_pages().unwrap_or_default();
+    ev["durable_data"] = json!(expand(&dd));
+    ev["durable_sys"] = json!(expand(&ds));
+    ev["readers"] = json!([]);
+    ev["sps"] = json!([]);
+    ev["settled"] = json!(false);
+    ev["tracker"] = json!({
+        "next_sp": tracker.next_savepoint_id, "next_txn": tracker.next_transaction_id,
+        "live_reads": tracker.live_read_transactions.iter().map(|(a, b)| json!([a, b])).collect::<Vec<J>>(),
+        "valid_sps": tracker.valid_savepoints.iter().map(|(a, b)| json!([a, b])).collect::<Vec<J>>(),
+        "pers_sps": tracker.persistent_savepoints,
+        "pending_nd": tracker.pending_non_durable_commits.iter().map(|(a, b)| json!([a, b])).collect::<Vec<J>>(),
+        "unprocessed": tracker.unprocessed_freed_non_durable_commits,
+    });
+    ev["hdr"] = json!({
+        "primary": hdr.primary_slot, "recovery": hdr.recovery_required, "tpc": hdr.two_phase_commit, "from_sec": hdr.read_from_secondary,
+        "txn": [hdr.slots[0].transaction_id, hdr.slots[1].transaction_id],
+        "full_regions": hdr.full_regions, "trailing": hdr.trailing_region_pages, "region_pages": hdr.region_max_data_pages,
+        "backend_len": backend_len, "layout_len": hdr.layout_len,
+    });
+    ev
+}
+
+impl Exec {
+    /// Page accounting at a transaction boundary, including what live readers and savepoints pin
+    fn acct(&mut self, op: &J) -> J {
+        assert!(self.wtx.is_none(), "HARNESS: acct needs a transaction boundary");
+        let db = self.db.as_ref().unwrap();
+        let mut ev = account(db, self.store.len());
+        ev["settled"] = json!(op.get("settled").and_then(|b| b.as_bool()).unwrap_or(false));
+        if ev.get("alloc").is_none() {
+            return ev;
+        }
         let mut readers = vec![];
         let mut names: Vec<&String> = self.readers.keys().collect();
         names.sort();
@@ -1324,20 +1357,6 @@ impl Exec {
         }
         ev["sps"] = json!(sps);
         ev["nits"] = json!(self.its.len());
-        ev["tracker"] = json!({
-            "next_sp": tracker.next_savepoint_id, "next_txn": tracker.next_transaction_id,
-            "live_reads": tracker.live_read_transactions.iter().map(|(a, b)| json!([a, b])).collect::<Vec<J>>(),
-            "valid_sps": tracker.valid_savepoints.iter().map(|(a, b)| json!([a, b])).collect::<Vec<J>>(),
-            "pers_sps": tracker.persistent_savepoints,
-            "pending_nd": tracker.pending_non_durable_commits.iter().map(|(a, b)| json!([a, b])).collect::<Vec<J>>(),
-            "unprocessed": tracker.unprocessed_freed_non_durable_commits,
-        });
-        ev["hdr"] = json!({
-            "primary": hdr.primary_slot, "recovery": hdr.recovery_required, "tpc": hdr.two_phase_commit, "from_sec": hdr.read_from_secondary,
-            "txn": [hdr.slots[0].transaction_id, hdr.slots[1].transaction_id],
-            "full_regions": hdr.full_regions, "trailing": hdr.trailing_region_pages, "region_pages": hdr.region_max_data_pages,
-            "backend_len": self.store.len(), "layout_len": hdr.layout_len,
-        });
         ev
     }
 }
